@@ -236,4 +236,11 @@ pub fn run(run: &mut Run) {
     ];
     run.enumerate("golden", golden_cases(), Some("one canonical block per (suffix, comment form)"), check);
     run.random("sources", run.tier.pick(6000, 150000), case_strategy, check);
+    if run.tier == crate::engine::Tier::Thorough {
+        let seeds: Vec<Vec<u8>> = (0..64u8).map(|i| (0..40u8).map(|k| i.wrapping_mul(37).wrapping_add(k.wrapping_mul(11))).collect()).collect();
+        run.fuzz_part("blocks_structured", "sources", 250_000, 8, 600, seeds, &|bytes, probe| {
+            let case = crate::fuzzdec::decode_src_case(bytes, false);
+            (check(&case, probe), serde_json::to_value(&case).unwrap_or_default())
+        });
+    }
 }
